@@ -792,6 +792,45 @@ fn exh(out: &mut Out, rng: &mut Rng, thorough: bool) {
 		}
 	}
 	out.raw(&format!("#STAT exh boundary: tuples in which an out-of-range nonce closes a cycle with in-range edges={}", nb));
+	// the count clause with a concrete witness: genuine simple cycles of ANOTHER length than the
+	// chain's proof size, verified through a context created for that length (as pow::verify_size
+	// creates it from the proof it is handed): exactly `proofsize` nonces are required
+	let mut nwl = 0u64;
+	for v in VARS.iter() {
+		for eb in [4u8, 5u8].iter() {
+			for len in [2usize, 4, 6, 10, 12].iter() {
+				let mut found = 0;
+				for _ in 0..(if thorough { 6000 } else { 1500 }) {
+					if found >= 1 {
+						break;
+					}
+					let seed = rng.next();
+					let keys = real_keys(&header(seed), None);
+					let eps: Vec<(u64, u64)> = (0..(1u64 << eb)).map(|n| v.ep(&keys, *eb, n)).collect();
+					let mut budget = 50_000u64;
+					let c = match find_cycles(*v, &eps, *len, &mut budget, 1).into_iter().next() {
+						Some(c) => c,
+						None => continue,
+					};
+					found += 1;
+					nwl += 1;
+					let r = Runner::new(*v, *eb, ps, *len, seed, true);
+					let mut t = c.clone();
+					t.sort_unstable();
+					let res = r.verify(&t, &mut stats, out);
+					stats.add(*v, res);
+					if res == "ok" {
+						out.raw(&oracle_fail_line(*v, *eb, ps, &r.keys, seed, &t, res, false, &format!("genuine-{}-cycle-where-{}-nonces-are-required", len, ps)));
+					}
+					out.line(
+						&format!("pow verify {} {} {} {} {} {}", v.name(), eb, ps, len, keys_str(&r.keys), nat_list(&t)),
+						res,
+					);
+				}
+			}
+		}
+	}
+	out.raw(&format!("#STAT exh count: genuine cycles of another length verified through a context of that length={}", nwl));
 	stats.print(out, "exh");
 }
 
